@@ -15,11 +15,11 @@ CHECKS = {
  "C02": dict(engine="crash", level="fault_enumeration", ref="DESIGN.md 5 C02",
    technique=TECH + "crash at device-call boundaries after an acknowledgement, enumerated loss/reorder/tear families of the un-fsynced writes, recovery in a fresh handle against the per-key history",
    text="Workloads of 1-3 single-writer clients with flushes as acknowledgement points run under the seeded scheduler on a simulated device that distinguishes page cache from durable image. Power is cut at sampled (quick) or every (thorough, 1 in 3 workloads) device-call boundary after the first acknowledgement; for each instant a family of images is built from the writes not covered by a completed fsync (none, all, every subset when <= 3-5 writes, prefixes, single drops, sector- or block-granular tearing of each write, random subsets); every image is recovered in a fresh handle after a simulated process restart and each key must carry a state of its own history not older than the last state covered by the last completed flush. Fault enumeration over sampled workloads.",
-   note="Acknowledgement = flush() returned Ok, or (a third of the runs) the clean drop of the store at the end of the workload returned on a device that can hold what was buffered - crash points then also fall inside and after the close; coverage = state changes whose call returned before the flush was invoked (global event numbers). Device model: 512-byte atomic sectors, honest fsync."),
+   note="A second stage (fault engine) covers acknowledgements handed out after transient device failures: what was acknowledged after the device healed must be in the durable image and survive recovery. Acknowledgement = flush() returned Ok, or (a third of the runs) the clean drop of the store at the end of the workload returned on a device that can hold what was buffered - crash points then also fall inside and after the close; coverage = state changes whose call returned before the flush was invoked (global event numbers). Device model: 512-byte atomic sectors, honest fsync."),
  "C03": dict(engine="crash", level="fault_enumeration", ref="DESIGN.md 5 C03",
    technique=TECH + "crash at any device-call boundary incl. first initialisation, forged record/marker images inside values, full authenticity oracle and probe workload after recovery",
    text="Same engine as C02 with crash instants over the whole trace (including the very first metadata initialisation and retirements), values whose continuation blocks are byte-exact record heads and retirement markers for the sectors they are predicted to land on, 512-byte and 4096-byte tearing modes; reopen must succeed, every exposed key must carry one complete generation (value, timestamp, expiry) of its own history, no foreign key, len() = exposed keys, partition invariant holds, and the store must accept a probe workload whose flush makes the durable image decode (independent codec) to exactly its contents.",
-   note="Same device model as C02; ghost keys are detected because no workload ever writes them."),
+   note="Same device model as C02; ghost keys are detected because no workload ever writes them. A second stage (crash engine, nested profile) cuts the power again inside recovery's own repair writes: the file must still reopen."),
  "C04": dict(engine="crash", level="fault_enumeration", ref="DESIGN.md 5 C04",
    technique=TECH + "nested crash injection inside recovery's own repair writes, repeated reopen, write-trace vs live-extent intersection",
    text="Crash images of the C03 engine are recovered (R1), reopened again k times without writing (contents must equal R1 up to expiry), recovered again with a power cut at sampled/every device call of recovery's own writes with loss/tear families (nested, depth <= 2) - contents must equal R1 - and the blocks recovery writes are intersected with the extents of R1's live records.",
@@ -70,11 +70,11 @@ CHECKS = {
    note="The feox-migrate binary's argument handling is not simulated (covered by the repository's CLI tests)."),
  "C17": dict(engine="corr", level="exploration", ref="DESIGN.md 5 C17",
    technique=TECH + "stored-data corruption as the injected fault: field-aware forging (with recomputed checksums/tokens), bit flips, block swaps/duplication/truncation, random images, invalid sizes",
-   text="Valid v1/v2/v3 images from simulated workloads (clean and crashed: live, retired, journalled, multi-block extents) are damaged by 1-6 edits chosen from: bit flips (anywhere / reserved area / record heads), block swap, duplication, zeroing, truncation, forged key/value lengths, timestamps, expiries, tokens (optionally re-stamped so the token check passes), forged retirement markers, forged journal slots (counts, states, extents, generations, with or without a valid checksum), forged metadata (version, sizes, generation, checksum flag), broken signatures, legacy markers; plus random images and invalid sizes. Opening runs under catch_unwind inside the simulator (step budget and virtual-time liveness bound catch loops): it must return Ok or Err; an opened store must answer a probe workload and be dropped without panicking; a file without valid FeOx metadata or of invalid size must be rejected with zero device writes. Built with overflow checks and debug assertions on.",
+   text="Valid v1/v2/v3 images from simulated workloads (clean and crashed: live, retired, journalled, multi-block extents) are damaged by 1-6 edits chosen from: bit flips (anywhere / reserved area / record heads), block swap, duplication, zeroing, truncation, forged key/value lengths, timestamps, expiries, tokens (optionally re-stamped so the token check passes), forged retirement markers, forged journal slots (counts, states, extents, generations, with or without a valid checksum), forged metadata (version, sizes, generation, checksum flag), broken signatures, legacy markers; plus random images, invalid sizes, and files of 1.2-2.7 MiB that are empty at their start and foreign further on (beyond the first scan window). Opening runs under catch_unwind inside the simulator (step budget and virtual-time liveness bound catch loops): it must return Ok or Err; an opened store must answer a probe workload and be dropped without panicking; a file without valid FeOx metadata or of invalid size must be rejected with zero device writes. Built with overflow checks and debug assertions on.",
    note="Allocation failure is not injected; a worker killed by the OS (abort) is reported via the crash path."),
  "C19": dict(engine="live", level="exploration", ref="DESIGN.md 5 C19",
    technique=TECH + "virtual-time bounded-liveness: no explicit flush, durable image checked 1 virtual second after a modification, retirement after 2, for every shards x workers configuration",
-   text="No client ever calls flush(). For shards 1-8 x workers 1-8 (the two CPU-count reads are set independently), 1-4 single-writer clients issue small workloads, 1100-1700-entry bursts of 1-byte values (crossing the 1024-entry batch) or 60+ virtual seconds of steady traffic. One virtual second after the last modification the durable image, decoded independently and recovered in a fresh handle, must hold every key's final state; after two virtual seconds the retirement queue and buffers must be empty, the partition invariant must hold and no superseded generation may remain on the device; in the steady variant every modification older than one second must be durable at every one-second checkpoint. Further families: hot-key runs (one key overwritten back to back for several virtual seconds with the flusher held after every drain, so that every generation it looks at is already superseded - three bounds at one-second checkpoints), slow-reader runs (a reader held between its extent pin and the end of its device read while the key is overwritten; the postponed retirement must complete within the bound after the reader left), swept runs (TTL keys flushed, expired and removed by the background sweeper; their extents must be retired on the device within the bound).",
+   text="No client ever calls flush(). For shards 1-8 x workers 1-8 (the two CPU-count reads are set independently), 1-4 single-writer clients issue small workloads, 1100-1700-entry bursts of 1-byte values (crossing the 1024-entry batch) or 60+ virtual seconds of steady traffic. One virtual second after the last modification the durable image, decoded independently and recovered in a fresh handle, must hold every key's final state; after two virtual seconds the retirement queue and buffers must be empty, the partition invariant must hold and no superseded generation may remain on the device; in the steady variant every modification older than one second must be durable at every one-second checkpoint. Further families: hot-key runs (one key overwritten back to back for several virtual seconds with the flusher held after every drain, so that every generation it looks at is already superseded - three bounds at one-second checkpoints; in half of them the single worker owns two to four shards and the other clients write into the sibling shards while the hot one is busy), transient runs (the record-write fail point fires three or six times and then heals: the periodic trigger alone has to retry what the flusher gave up), slow-reader runs (a reader held between its extent pin and the end of its device read while the key is overwritten; the postponed retirement must complete within the bound after the reader left), swept runs (TTL keys flushed, expired and removed by the background sweeper; their extents must be retired on the device within the bound).",
    note="Virtual I/O latency: 10-20 us per read/write, 0.5 ms per fsync; fault-free. Half of all runs model parking_lot's writer-preferring RwLock (hook H7)."),
  "C16": dict(engine="seq", level="exploration", ref="DESIGN.md 5 C16",
    technique=TECH + "differential execution of the same tape with cache on and off under a frozen clock",
